@@ -20,7 +20,7 @@ import (
 // a direct oracle built from go/parser, strconv, the re-stated MatchFile / ShouldBuild rules and
 // go/build/constraint.
 
-const scanRule = "imports.ScanDir and ScanFiles on generated directories of 10-30 entries (OS/arch/_test suffixes, _ and . prefixes, non-.go names, sub-directories, +build headers, BOM files, import \"C\", duplicate and escaped paths, empty, mutated, NUL and syntax-error files) under two tag sets each (incl. \"*\" and cgo), compared with the model scan_dir / scan_files and, when every considered file is accepted by go/parser, with a direct oracle: go/parser import specs + strconv.Unquote + the re-stated MatchFile and +build rules (cross-checked with go/build/constraint), sorted sets with tests separated."
+const scanRule = "imports.ScanDir and ScanFiles on generated directories of 10-30 entries (OS/arch/_test suffixes, _ and . prefixes, non-.go names, sub-directories, +build headers, BOM files, import \"C\", duplicate and escaped paths, empty, mutated, NUL and syntax-error files) under two tag sets each (incl. \"*\" and cgo), compared with the model scan_dir / scan_files and, when every considered file is accepted by go/parser, with a direct oracle: go/parser import specs + strconv.Unquote + the re-stated MatchFile and +build rules (cross-checked with go/build/constraint), sorted sets with tests separated; and always with the composition oracle (scan.go's rules re-stated over the package's ReadImports and ShouldBuild, the re-stated MatchFile and strconv.Unquote)."
 
 type dirEntry struct {
 	name  string
@@ -125,6 +125,49 @@ func oracleScanDir(ents []dirEntry, tags []string) (res string, applicable bool)
 		return "S nogo", true
 	}
 	return showScan(sortedKeys(imps), sortedKeys(tests), nil), true
+}
+
+// composedScan re-states scan.go's rules on top of the package's own ReadImports and ShouldBuild
+// (which have their own oracles) and the re-stated MatchFile: always applicable, also to files that
+// go/parser rejects.  explicit = ScanFiles (no name filter, no +build filter).
+func composedScan(ents []dirEntry, tags []string, explicit bool) string {
+	tm := tagMap(tags)
+	imps, tests := map[string]bool{}, map[string]bool{}
+	n := 0
+	for _, e := range ents {
+		if !explicit && (e.isDir || strings.HasPrefix(e.name, "_") || !strings.HasSuffix(e.name, ".go") || !docMatchFile(e.name, tm)) {
+			continue
+		}
+		var lits []string
+		data, err := imports.ReadImports(bytes.NewReader(e.data), false, &lits)
+		if err != nil {
+			return "S readerr"
+		}
+		needC := false
+		for _, l := range lits {
+			needC = needC || l == `"C"`
+		}
+		if needC && !tm["cgo"] && !tm["*"] {
+			continue
+		}
+		if !explicit && !imports.ShouldBuild(data, tm) {
+			continue
+		}
+		n++
+		m := imps
+		if strings.HasSuffix(e.name, "_test.go") {
+			m = tests
+		}
+		for _, l := range lits {
+			if q, err := strconv.Unquote(l); err == nil {
+				m[q] = true
+			}
+		}
+	}
+	if n == 0 {
+		return "S nogo"
+	}
+	return showScan(sortedKeys(imps), sortedKeys(tests), nil)
 }
 
 func sortedKeys(m map[string]bool) []string {
@@ -328,6 +371,24 @@ func (rn *runner) caseScan(ents []dirEntry, tags []string, src string) {
 	} else {
 		res.Count("scan:oracle-not-applicable(file not accepted by go/parser or NUL)")
 	}
+	if want := common.Safely(func() string { return composedScan(ents, tags, false) }); want != impl {
+		res.Count("oracle-fails:ScanDir/composition")
+		small := ents
+		if rn.shrunk["o:scanc"]++; rn.shrunk["o:scanc"] <= 4 {
+			small = common.ShrinkList(ents, func(es []dirEntry) bool {
+				d2 := dir + "c"
+				defer os.RemoveAll(d2)
+				return writeDir(d2, es) == nil && implScanDir(d2, tags) != composedScan(es, tags, false)
+			})
+		}
+		d3 := dir + "d"
+		writeDir(d3, small)
+		got := implScanDir(d3, tags)
+		os.RemoveAll(d3)
+		res.Violate(common.Violation{Kind: "impl-violation", Oracle: "ScanDir/composition", Input: entsInput(small, tags, "ScanDir"),
+			Impl: clip(got), Model: clip(composedScan(small, tags, false)), Key: "scanc:" + clip(scanRequest("sd", tags, small)),
+			Detail: "ScanDir differs from scan.go's documented rules re-stated over ReadImports, ShouldBuild, the re-stated MatchFile and strconv.Unquote"})
+	}
 	for _, e := range ents {
 		if !e.isDir && !modelable(sansBOM(e.data)) {
 			res.Count("scan:not-modelled(tag letters >= U+0250 in a header)")
@@ -360,6 +421,28 @@ func (rn *runner) caseScan(ents []dirEntry, tags []string, src string) {
 		paths = append(paths, filepath.Join(dir, e.name))
 	}
 	implF := implScanFiles(paths, tags)
+	if want := common.Safely(func() string { return composedScan(sub, tags, true) }); want != implF {
+		res.Count("oracle-fails:ScanFiles/composition")
+		small := sub
+		rerun := func(es []dirEntry) string {
+			d2 := dir + "g"
+			defer os.RemoveAll(d2)
+			if writeDir(d2, es) != nil {
+				return "?"
+			}
+			var ps []string
+			for _, e := range es {
+				ps = append(ps, filepath.Join(d2, e.name))
+			}
+			return implScanFiles(ps, tags)
+		}
+		if rn.shrunk["o:scanfc"]++; rn.shrunk["o:scanfc"] <= 4 {
+			small = common.ShrinkList(sub, func(es []dirEntry) bool { return rerun(es) != composedScan(es, tags, true) })
+		}
+		res.Violate(common.Violation{Kind: "impl-violation", Oracle: "ScanFiles/composition", Input: entsInput(small, tags, "ScanFiles"),
+			Impl: clip(rerun(small)), Model: clip(composedScan(small, tags, true)), Key: "scanfc:" + clip(scanRequest("sf", tags, small)),
+			Detail: "ScanFiles differs from scan.go's documented rules (no name or +build filtering for explicitly named files) re-stated over ReadImports and strconv.Unquote"})
+	}
 	res.Count("scan:ScanFiles:" + strings.Join(strings.Fields(implF)[:min(2, len(strings.Fields(implF)))], "-"))
 	rn.addScan("ScanFiles", "sf", tags, sub, entsInput(sub, tags, "ScanFiles"), func(es []dirEntry) string {
 		d2 := dir + "f"
